@@ -9,7 +9,7 @@ from pyvc.solve import split_goal
 fq_s, sel, part, tmo = sys.argv[1], sys.argv[2], int(sys.argv[3]), int(sys.argv[4])
 specs = load_specs(); w = make_world(specs)
 fq = [k for k in specs.contracts if k.endswith(fq_s)][0]
-def fake(obs, ax, timeout_ms, seed, jobs):
+def fake(obs, ax, timeout_ms, seed, jobs, single_attempt=()):
     for ob in obs:
         if sel in ob.oid:
             hyps, g = split_goal(ob.goal)[part]
